@@ -66,7 +66,7 @@ func genClient(rng *rand.Rand, cfg Cfg, n int, w map[string]int, keysOf []int, i
 	return ops
 }
 
-var concSizes = []int{12, 12, 16, 40, 100, 300, 520}
+var concSizes = []int{0, 12, 12, 16, 40, 100, 300, 520}
 
 // ---------------------------------------------------------------------------------------------
 // C07: linearizability.
@@ -91,6 +91,50 @@ func (l linEngine) Generate(rng *rand.Rand, prop string, thorough bool) *Plan {
 	total := 20 + rng.Intn(100)
 	if thorough {
 		total = 20 + rng.Intn(160)
+	}
+	if !l.poison && rng.Intn(5) == 0 {
+		// a growing index: 30-70 keys, 15-21 of them preloaded, the writers put the rest for the first time
+		// (index splits while readers, scans and Count run); histories stay short per key
+		// preloaded just below a split threshold (22, 44, 66 keys for 1, 2, 3 buckets), so that the split
+		// happens early in the concurrent phase, while the first scans are under way
+		nPre := []int{15, 36, 58}[rng.Intn(3)] + rng.Intn(7)
+		cfg.NKeys = nPre + 10 + rng.Intn(20)
+		cfg.Family = int(KFMixed)
+		if cfg.NKeys <= 70 && rng.Intn(2) == 0 {
+			cfg.Family = int(KFTiny)
+		}
+		keys = GenKeys(rng, KeyFamily(cfg.Family), cfg.NKeys, cfg.HashSeed)
+		p.Cfg.NKeys, p.Cfg.Family = len(keys), cfg.Family
+		cfg.NKeys = len(keys)
+		p.SetKeys(keys)
+		id := 0
+		var pre []Op
+		for k := 0; k < nPre && k < cfg.NKeys; k++ {
+			id++
+			pre = append(pre, Op{K: "put", Key: k, ID: id, Size: 12})
+		}
+		p.Epochs = [][]Op{pre}
+		nw := 1 + rng.Intn(2)
+		for w := 0; w < nw; w++ {
+			var ops []Op
+			for k := nPre + w; k < cfg.NKeys; k += nw {
+				id++
+				ops = append(ops, Op{K: "put", Key: k, ID: id, Size: concSizes[rng.Intn(3)]})
+				if rng.Intn(6) == 0 {
+					ops = append(ops, Op{K: "del", Key: rng.Intn(nPre)})
+				}
+			}
+			p.Tasks = append(p.Tasks, ops)
+		}
+		all := make([]int, cfg.NKeys)
+		for i := range all {
+			all[i] = i
+		}
+		for r := 1 + rng.Intn(3); r > 0; r-- {
+			w := map[string]int{"get": 30, "has": 10, "geta": 5, "count": 6, "items": 6}
+			p.Tasks = append(p.Tasks, genClient(rng, cfg, 8+rng.Intn(25), w, all, &id, concSizes))
+		}
+		return p
 	}
 	all := make([]int, cfg.NKeys)
 	for i := range all {
